@@ -19,6 +19,7 @@ SETS_QUICK = [
     ([LONG + "q", LONG, "\U0001F600é"], [None, "中" * 3]),
     (["x", "X", "xx"], [None, "ns2", "NS"]),
 ]
+SETS_QUICK.append((["urn:caf\u00e9.1", "urn:cafe\u0301.1", "\u212bx"], [None, "f\u00e9", "fe\u0301"]))   # Unicode normalisation forms
 SETS_THOROUGH = SETS_QUICK + [
     (["a", "ab", "b", "ba"], [None, "c", "bc", "cb"]),
     (["/etc/passwd", "..", "."], [None, "/", ".."]),
@@ -30,6 +31,44 @@ SETS_THOROUGH = SETS_QUICK + [
 
 def menu_fn(w):
     return object_menu(w, with_invalid=False, with_reads=True) + metadata_menu(w)
+
+
+def alias_native(what):
+    """native confirmation: two distinct identifiers observed at one address really share state on a real store"""
+    import logging
+    import shutil
+    from engine.universe import scratch_root
+    logging.disable(logging.CRITICAL)
+    MN = loader.load("filehashstore.py")
+    root = scratch_root()
+    out = []
+    try:
+        for group in what:
+            a, b = group[0], group[1]
+            s = MN.FileHashStore(dict(store_path=root + "/s%d" % len(out), store_depth=3, store_width=2,
+                                      store_algorithm="SHA-256", store_metadata_namespace="ns"))
+            for name, data in (("fa", b"AAAA"), ("fb", b"BBBB")):
+                with open(root + "/" + name, "wb") as fh:
+                    fh.write(data)
+            if a[0] == "pid":
+                s.store_object(a[1], root + "/fa")
+                try:
+                    s.store_object(b[1], root + "/fb")
+                    got = s.retrieve_object(a[1]).read()
+                    ok = got == b"AAAA" and s.retrieve_object(b[1]).read() == b"BBBB"
+                except Exception as e:   # noqa
+                    ok = False
+                    got = type(e).__name__
+                out.append((a[1], b[1], ok, got))
+            else:
+                s.store_metadata(a[1], root + "/fa", a[2])
+                s.store_metadata(b[1], root + "/fb", b[2])
+                got = s.retrieve_metadata(a[1], a[2]).read()
+                out.append((a[1:], b[1:], got == b"AAAA", got))
+        bad = [o for o in out if not o[2]]
+        return bool(bad), "native run (unpatched code, real file system): storing under the second identifier affects the first: %r" % (bad,)
+    finally:
+        shutil.rmtree(root, ignore_errors=True)
 
 
 def kernels(tier):
@@ -67,6 +106,8 @@ def main(tier, replay_payload=None):
         return dict(pids=pids, contents=[b"shared", b"0123456789ab"], formats=fmts, sym_dirs=False)
 
     def replayer(payload):
+        if payload.get("harness") == "alias":
+            return alias_native(payload["what"])
         return make_replayer(args_for(payload.get("set", 0)), menu_fn, kf)(payload)
     if replay_payload is not None:
         return replayer(replay_payload)
@@ -74,8 +115,16 @@ def main(tier, replay_payload=None):
                      "containment on the trace) + CrossHair lemma on _check_string")
     run.replayer = replayer
     ncalls = 0
+    from engine.universe import Aliasing, World
     for n in range(len(sets)):
         w_args = args_for(n)
+        try:
+            World(**w_args)
+        except Aliasing as e:
+            run.oblige(False)
+            run.fail("distinct identifiers are stored at the same address :: " + str(e.what[0][0][0]),
+                     dict(aliasing=e.what), dict(harness="alias", set=n, what=e.what, clauses=["alias"]))
+            continue
         res = step.explore_steps(w_args, menu_fn)
         ncalls += res[0][2]
         before = set(run.failures)
